@@ -17,7 +17,7 @@ STUBS = ['injector, taps, recording sink']
 ASSUMPTIONS = ['reference recurrence written from the statement; the committed bucket after a yellow packet is not '
                'specified, so a colour is only demanded where both readings (left / emptied) agree',
                'FLOAT workloads: relative tolerance 1e-9 on instants, 1e-6 on the conformance inequality']
-PROBES = ['packet_larger_than_bucket', 'bucket_exactly_empty_then_back_to_back', 'idle_longer_than_fill_time',
+PROBES = ['precoloured_packets', 'rate_assigned_after_construction', 'packet_larger_than_bucket', 'bucket_exactly_empty_then_back_to_back', 'idle_longer_than_fill_time',
           'waited_for_tokens', 'peak_spacing', 'green', 'yellow', 'red', 'trtb_no_pir']
 
 
@@ -45,6 +45,12 @@ def gen(rng, tier):
             case['pir'] = case['pbs'] = None
     else:
         case['elem'] = 'TB'
+        if rng.random() < 0.12:
+            # the rate is assigned to the public attribute after construction (once the shaper's process has started)
+            case['late_rate'] = rng.choice([8, 12345, rate * 4])
+    if rng.random() < 0.15:
+        # packets already coloured by an upstream meter: this meter's verdict replaces the colour
+        case['precoloured'] = True
     return case
 
 
@@ -54,15 +60,33 @@ def run(case):
     if case.get('elem') == 'TRTB':
         tb = TwoRateTokenBucket(env, case['cir'], case['cbs'], case.get('pir'), case.get('pbs'))
     else:
-        tb = TokenBucket(env, case['rate'], case['bucket'], peak=case.get('peak'))
+        late = case.get('late_rate')
+        tb = TokenBucket(env, late if late else case['rate'], case['bucket'], peak=case.get('peak'))
+        if late:
+            def configure():
+                tb.rate = case['rate']
+                return
+                yield
+            env.process(configure())
     sink = Recorder(w, 'sink')
 
     def post_out(elem, p):
         return (p.color,)
     tb.out = OutTap(w, 'tb', tb, sink, post=post_out)
-    start_injector(w, InTap(w, 'tb', tb), [tuple(x) for x in case.get('workload', [])])
+    tap = InTap(w, 'tb', tb)
+    if case.get('precoloured'):
+        class PreColour:
+            def put(self, p, tap=tap):
+                p.color = ('red', 'yellow', 'green')[p.packet_id % 3]
+                return tap.put(p)
+        tap = PreColour()
+    start_injector(w, tap, [tuple(x) for x in case.get('workload', [])])
     w.run(max_steps=20000)
     viol, stats, nontrivial = check(w, case)
+    if case.get('precoloured'):
+        stats['precoloured_packets'] = 1
+    if case.get('late_rate') and case.get('elem') != 'TRTB':
+        stats['rate_assigned_after_construction'] = 1
     res = {'viol': viol, 'digest': digest_of(w.log), 'nontrivial': nontrivial, 'stats': stats,
            'simtime': float(env.now), 'steps': w.steps}
     if case.get('_excerpt'):
